@@ -7,12 +7,12 @@ import tgen
 
 PROP = "C07"
 LEVEL = "proof"
-GEN_UNITS = []
-COQ_TARGETS = ["Props/C07.vo", "Model/C07Harness.vo", "Model/C07Harness2.vo", "Model/Harness.vo"]
-THEOREM_FILES = ["Props/C07.v"]
+GEN_UNITS = ["GenUtils"]      # Props/C07w3.v states sparse reshape over the generated tt_sub2ind / tt_ind2sub
+COQ_TARGETS = ["Props/C07.vo", "Props/C07w3.vo", "Model/C07Harness.vo", "Model/C07Harness2.vo", "Model/C07Gen.vo", "Model/Harness.vo"]
+THEOREM_FILES = ["Props/C07.v", "Props/C07w3.v"]
 COQ_IMPORTS = ("From Coq Require Import List ZArith Bool.\n"
                "From PV Require Import Base.Index Base.Perm Np.Array Model.Sparse Model.Repr Model.Harness "
-               "Model.C07Ops Model.C07Harness Model.C07Ops2 Model.C07Harness2.\n")
+               "Model.C07Ops Model.C07Harness Model.C07Ops2 Model.C07Harness2 Np.NpZ Gen.GenUtils Model.C07Gen.\n")
 RULE = ("permute: all N! orders for N<=4 (seeded sample for N=5) on shapes with distinct sizes (2,3,4,5), repeated sizes and "
         "singletons, for dense / sparse / Kruskal (rank 0..3) / Tucker with a dense core / Tucker with a sparse core (core <= "
         "2x2x2x2, stored order sorted|reversed|random, empty core included) holders; reshape: every ordered factorisation "
@@ -22,12 +22,29 @@ RULE = ("permute: all N! orders for N<=4 (seeded sample for N=5) on shapes with 
         "permute(keep ++ old) ; reshape on the same data; reshape / squeeze through full() of Kruskal and Tucker (dense and sparse "
         "core) holders; squeeze: every shape with <= 8 cells and <= 4 modes, sparsity {0,1,some,all} (so every all-singleton "
         "shape occurs with nothing stored); a small malformed stream (non-permutations, wrong element counts). non-trivial = "
-        "more than one cell, at least one nonzero and not (identity order on a cubical shape)")
+        "more than one cell, at least one nonzero and not (identity order on a cubical shape). Third wave: the dense ops on 7 memory "
+        "layouts of the same logical array (built from C-ordered data with and without copy, from a transposed view, from a slice "
+        "of a larger array, a C-ordered array / strided view assigned to .data, integer dtype, operands produced by sptensor.full() "
+        "and by slicing a larger tensor); sparse operands with Fortran-ordered / strided subscript arrays without copy and operands "
+        "produced by tensor.to_sptensor() / slicing a larger sptensor (model input = what pyttb holds before the call); values scaled by 2^k, k in "
+        "{-30,-20,24,40}, dense and sparse; sparse operands with explicitly stored zeros, integer-typed values, and operands "
+        "without stored entries that come out of S - S / S * 0; old_modes with a repeated mode; Kruskal / Tucker holders with "
+        "C-ordered, assigned C-ordered and strided factor matrices (and core data) and Kruskal holders right after "
+        "normalize(weight_factor = k | 'all'); multi-step histories (op chain: permute;permute, reshape;permute;reshape, "
+        "reshape-with-inserted-1s;squeeze, sparse subset-reshape;permute;squeeze, second call on the same object) with every "
+        "intermediate object observed raw")
 EXPLANATION = ("Theorems (Props/C07.v) are over the hand-written models Model/C07Ops.v and Model/C07Ops2.v, for all N, shapes, "
                "orders and any value type (Kruskal/Tucker: any commutative ring). The correspondence stream runs pyttb and the "
-               "model on the same inputs and compares shape, denotation at every subscript, well-formedness and nnz in Coq.")
+               "model on the same inputs and compares shape, denotation at every subscript, well-formedness and nnz in Coq; "
+               "dense results are compared as raw F-order .data lists and must be Fortran-ordered with .shape = .data.shape; the "
+               "argument must be left unchanged. Sparse reshape is additionally evaluated through Model/C07Gen.v, the "
+               "transliteration of sptensor.reshape over the GENERATED tt_sub2ind / tt_ind2sub (Props/C07w3.v bridges it to "
+               "the hand model), so an edit of those helpers breaks the proof or the comparison.")
 CORRESPONDENCE_ONLY = []
 ASSUMPTIONS = ["numpy transpose / F-order reshape / squeeze semantics as defined in Np/Array.v (np_transpose, np_reshapeF)",
+               "np.ravel_multi_index / np.unravel_index / negative-index wrap as defined in Np/NpZ.v (used by the generated "
+               "tt_sub2ind / tt_ind2sub); the statements of sptensor.reshape around the two helper calls are transliterated by hand "
+               "(Model/C07Gen.v)",
                "ktensor.full / ttensor.full compute tabulate(shape, den) (proved for pyttb's algorithms under C01); C07 only "
                "uses them to route Kruskal / Tucker holders to tensor.reshape / tensor.squeeze, which pyttb does not offer on "
                "ktensor / ttensor"]
@@ -234,7 +251,7 @@ def gen_cases(rng, tier):
     return cases
 
 
-DENSE_LAYOUTS = ["C", "C_nocopy", "transposed", "sliced", "assignC", "assign_view", "int"]
+DENSE_LAYOUTS = ["C", "C_nocopy", "transposed", "sliced", "assignC", "assign_view", "int", "sp_full", "getitem"]
 FACTOR_LAYOUTS = ["C", "assignC", "assign_view"]
 SCALES = [-30, -20, 24, 40]
 
@@ -271,6 +288,13 @@ def nonones(s):
     return [d for d in s if d != 1]
 
 
+def facs_of(n, maxlen=None):
+    """ordered factorisations (factors >= 2) of n as target shapes; [[1]] for n = 1 (a 0-way target is not admissible)"""
+    if n == 1:
+        return [[1]]
+    return [f for f in ordered_factorisations(n) if maxlen is None or len(f) <= maxlen] or [[n]]
+
+
 def gen_w3(rng, big):
     cases = []
     rep = 3 if big else 1
@@ -281,7 +305,7 @@ def gen_w3(rng, big):
     for shp in lshapes:
         N, n = len(shp), math.prod(shp)
         perms = list(itertools.permutations(range(N)))
-        facs = [f for f in ordered_factorisations(n) if len(f) <= 4] or [[n]]
+        facs = facs_of(n, 4)
         for lay in DENSE_LAYOUTS:
             for _ in range(rep):
                 data = tgen.rand_dense(rng, shp, rng.choice([0.7, 1.0]))
@@ -299,7 +323,7 @@ def gen_w3(rng, big):
     # ---------------- magnitudes: the same integers scaled by 2^k (exact in float64); every value must come back bit-exact
     for shp in [[2, 3, 2], [3, 1, 2], [4, 3], [5], [1, 1]]:
         N, n = len(shp), math.prod(shp)
-        facs = ordered_factorisations(n) if n > 1 else [[1]]
+        facs = facs_of(n)
         for k in SCALES:
             data = tgen.rand_dense(rng, shp, 0.8)
             p = list(range(N))
@@ -318,8 +342,8 @@ def gen_w3(rng, big):
         sshapes += [tgen.rand_shape(rng, maxn=4, maxcells=48) for _ in range(8)]
     for shp in sshapes:
         N, n = len(shp), math.prod(shp)
-        facs = ordered_factorisations(n) if n > 1 else [[1]]
-        for variant in ["zeros", "zeros", "int", "minus", "times0"]:
+        facs = facs_of(n)
+        for variant in ["zeros", "zeros", "int", "minus", "times0", "F_nocopy", "view_nocopy", "to_sptensor", "getitem"]:
             for _ in range(rep):
                 extra = {}
                 if variant == "zeros":
@@ -329,12 +353,15 @@ def gen_w3(rng, big):
                 elif variant == "int":
                     subs, vals = rand_sparse(rng, shp, 0.6)
                     extra = {"dtype": "int"}
-                else:        # the operand is S - S  /  S * 0 for a random non-empty S: no stored entry, subs of a computed shape
+                elif variant in ("minus", "times0"):   # the operand is S - S / S * 0 for a random non-empty S: nothing stored
                     subs, vals = rand_sparse(rng, shp, 0.7)
                     if not vals:
                         continue
                     extra = {"via": variant}
-                nt = bool(vals) and n > 1 and variant in ("zeros", "int")
+                else:        # Fortran-ordered / strided subscript arrays without copy; operands made by to_sptensor() / slicing
+                    subs, vals = rand_sparse(rng, shp, rng.choice([0.0, 0.5, 0.8]))
+                    extra = {"via": variant}
+                nt = bool(vals) and n > 1 and variant not in ("minus", "times0")
                 p = list(range(N))
                 rng.shuffle(p)
                 base = {"shape": shp, "subs": subs, "vals": vals}
@@ -345,17 +372,29 @@ def gen_w3(rng, big):
                     r = rng.randint(1, N)
                     old = rng.sample(range(N), r)
                     m = math.prod(shp[k] for k in old)
-                    f2 = ordered_factorisations(m) if m > 1 else [[1]]
+                    f2 = facs_of(m)
                     tgt = rng.choice(f2) or [1]
                     cases.append(Case("reshape_sp", dict(base, new=tgt, old=old, **extra), nt))
-                    if variant in ("zeros", "int"):
+                    if variant not in ("minus", "times0"):
                         cases.append(Case("reshape_sp_rt", dict(base, new=tgt, old=old, **extra), nt))
+    # ---------------- old_modes with a REPEATED mode (accepted by pyttb; forward law only, not onto: C07_reshape_sparse_repeated_not_onto)
+    for shp in [[2], [2, 3], [3, 2, 2], [1, 2]]:
+        N = len(shp)
+        for _ in range(3 * rep):
+            k = rng.randrange(N)
+            old = [k, k] + ([rng.randrange(N)] if rng.random() < 0.4 else [])
+            rng.shuffle(old)
+            m = math.prod(shp[j] for j in old)
+            f2 = facs_of(m)
+            subs, vals = rand_sparse(rng, shp, rng.choice([0.0, 0.5, 1.0]))
+            cases.append(Case("reshape_sp", {"shape": shp, "subs": subs, "vals": vals, "new": rng.choice(f2) or [1], "old": old,
+                                             "repeated": True}, bool(vals)))
     # ---------------- Kruskal / Tucker holders whose factor matrices are C-ordered / views / left C-ordered by normalize
     fshapes = [[2, 3], [3, 2, 4], [2, 3, 2], [1, 3, 2], [2, 2, 3, 2], [3]]
     for shp in fshapes:
         N, n = len(shp), math.prod(shp)
         perms = list(itertools.permutations(range(N)))
-        facs = ordered_factorisations(n) if n > 1 else [[1]]
+        facs = facs_of(n)
         for lay in FACTOR_LAYOUTS:
             for p in rng.sample(perms, min(len(perms), 4 if big else 2)):
                 p = list(p)
@@ -390,7 +429,7 @@ def gen_w3(rng, big):
     for shp in cshapes:
         N, n = len(shp), math.prod(shp)
         perms = list(itertools.permutations(range(N)))
-        facs = [f for f in ordered_factorisations(n) if len(f) <= 4] or [[n]]
+        facs = facs_of(n, 4)
         for _ in range(4 if big else 2):
             p, q = list(rng.choice(perms)), list(rng.choice(perms))
             data = tgen.rand_dense(rng, shp, rng.choice([0.6, 1.0]))
@@ -432,7 +471,7 @@ def gen_w3(rng, big):
             if N >= 2:
                 old = rng.sample(range(N), rng.randint(1, N))
                 m = math.prod(shp[k] for k in old)
-                f2 = ordered_factorisations(m) if m > 1 else [[1]]
+                f2 = facs_of(m)
                 tgt = with_ones(rng, rng.choice(f2))
                 M = N - len(old) + len(tgt)
                 p2 = list(range(M))
@@ -493,14 +532,26 @@ def _mk_dense(ttb, np, a):
     elif lay == "assign_view":
         T = ttb.tensor(arr.copy(order="F"), shape, copy=True)
         T.data = _noncontig_view(np, arr)
+    elif lay == "sp_full":           # the operand comes out of sptensor.full()
+        nzs = [(i, arr[tuple(i)]) for i in tgen.all_subs(a["shape"]) if arr[tuple(i)] != 0]
+        S = ttb.sptensor(np.array([i for i, _ in nzs], dtype=int).reshape((len(nzs), len(shape))),
+                         np.array([[v] for _, v in nzs], dtype=float).reshape((len(nzs), 1)), shape)
+        T = S.full()
+    elif lay == "getitem":           # the operand is a slice of a larger tensor
+        big = np.full([d + 1 for d in shape], 9.0, order="F")
+        big[tuple(slice(0, d) for d in shape)] = arr
+        T = ttb.tensor(big)[tuple(slice(0, d) for d in shape)]
     else:
         raise ValueError(lay)
     return T, arr
 
 
-def _eff_sparse(a):
-    """the stored lists of the operand (nothing stored when the operand is computed as S - S or S * 0)"""
-    return ([], []) if a.get("via") else (a["subs"], a["vals"])
+def _eff_sparse(a, o=None):
+    """the stored lists of the operand: as generated, or — when the operand is itself the result of a pyttb computation
+    (S - S, S * 0, tensor.to_sptensor(), a slice of a larger sptensor) — as pyttb held it right before the call under test"""
+    if o is not None and "pre_sp" in o:
+        return o["pre_sp"]["subs"], o["pre_sp"]["vals"]
+    return ([], []) if a.get("via") in ("minus", "times0") else (a["subs"], a["vals"])
 
 
 def _mk_sp(ttb, np, a):
@@ -509,12 +560,49 @@ def _mk_sp(ttb, np, a):
     v_ = np.array(vals, dtype=int if a.get("dtype") == "int" else float).reshape((len(vals), 1))
     if _scale(a) is not None:
         v_ = v_ * _scale(a)
+    via = a.get("via")
+    if via == "F_nocopy":            # Fortran-ordered subscript array handed over without a copy
+        return ttb.sptensor(np.asfortranarray(s_), v_, tuple(shape), copy=False)
+    if via == "view_nocopy":         # strided views of larger arrays, no copy
+        sb = np.zeros((2 * len(subs) + 1, 2 * len(shape) + 1), dtype=int)
+        sv = sb[1:2 * len(subs):2, 1:2 * len(shape):2]
+        sv[...] = s_
+        vb = np.zeros((len(vals), 3), dtype=v_.dtype)
+        vb[:, 1:2] = v_
+        return ttb.sptensor(sv, vb[:, 1:2], tuple(shape), copy=False)
+    if via == "to_sptensor":         # the operand comes out of tensor.to_sptensor()
+        d = np.zeros(tuple(shape), order="F")
+        for r, v in zip(s_, v_.ravel()):
+            d[tuple(r)] = v
+        return ttb.tensor(d).to_sptensor()
+    if via == "getitem":             # the operand is a slice of a larger sptensor
+        big = ttb.sptensor(np.vstack([s_, np.array([[d for d in shape]], dtype=int)]) if len(subs) else np.array([[d for d in shape]], dtype=int),
+                           np.vstack([v_, np.array([[9.0]])]) if len(vals) else np.array([[9.0]]), tuple(d + 1 for d in shape))
+        return big[tuple(slice(0, d) for d in shape)]
     S = ttb.sptensor(s_, v_, tuple(shape), copy=True)
-    if a.get("via") == "minus":
+    if via == "minus":
         S = S - S
-    elif a.get("via") == "times0":
+    elif via == "times0":
         S = S * 0
     return S
+
+
+def _pre_sp(ttb, np, a, S, o):
+    """operands produced by pyttb itself: record what pyttb holds; skip the case if that is not the intended tensor
+    (construction is the business of other properties)"""
+    if not a.get("via"):
+        return
+    if not isinstance(S, ttb.sptensor) or tuple(int(d) for d in S.shape) != tuple(a["shape"]):
+        o["skip"] = True
+        return
+    pre = tgen.obs_sparse(np, S)
+    want = {} if a["via"] in ("minus", "times0") else {tuple(r): v for r, v in zip(a["subs"], a["vals"])}
+    got = {tuple(r): v for r, v in zip(pre["subs"], pre["vals"])}
+    if len(got) != len(pre["subs"]) or got != {k: (v * _scale(a) if _scale(a) is not None else v) for k, v in want.items()}:
+        o["skip"] = True
+    if _scale(a) is not None:
+        pre["vals"] = [_unscale_val(v, a["scale_exp"]) for v in pre["vals"]]
+    o["pre_sp"] = pre
 
 
 def _relayout(np, m, lay):
@@ -636,7 +724,9 @@ def _step(ttb, np, X, st):
 def _run_chain(ttb, np, a):
     h = a["holder"]
     if h == "d":
-        X, _ = _mk_dense(ttb, np, a)
+        X, arr = _mk_dense(ttb, np, a)
+        if not isinstance(X, ttb.tensor) or tuple(X.shape) != tuple(a["shape"]) or not np.array_equal(X.data, arr):
+            return {"skip": True}
     elif h == "sp":
         X = _mk_sp(ttb, np, a)
     else:
@@ -668,6 +758,8 @@ def run_impl(c):
     try:
         if c.op in ("permute_d", "reshape_d", "squeeze_d"):
             T, arr = _mk_dense(ttb, np, a)
+            if not isinstance(T, ttb.tensor) or tuple(T.shape) != tuple(a["shape"]) or not np.array_equal(T.data, arr):
+                return {"skip": True}       # the producing operation did not give the intended operand: not C07's business
             if c.op == "permute_d":
                 R = T.permute(np.array(a["p"], dtype=int))
             elif c.op == "reshape_d":
@@ -680,6 +772,10 @@ def run_impl(c):
             return _unscale(o, a.get("scale_exp"))
         if c.op in ("permute_sp", "reshape_sp", "squeeze_sp"):
             S = _mk_sp(ttb, np, a)
+            pre = {}
+            _pre_sp(ttb, np, a, S, pre)
+            if pre.get("skip"):
+                return pre
             s0, v0, sh0 = S.subs.copy(), S.vals.copy(), tuple(S.shape)
             if c.op == "permute_sp":
                 R = S.permute(np.array(a["p"], dtype=int))
@@ -694,6 +790,7 @@ def run_impl(c):
             o = {"ok": tgen.obs_sparse(np, R)} if isinstance(R, ttb.sptensor) else {"scalar": tgen.exact(R)}
             if tuple(S.shape) != sh0 or not np.array_equal(S.subs, s0) or not np.array_equal(S.vals, v0):
                 o["input_changed"] = True
+            o.update(pre)
             return _unscale(o, a.get("scale_exp"))
         if c.op == "permute_k":
             K = _mk_k(ttb, np, a["K"], a["shape"], a.get("flayout"))
@@ -717,11 +814,15 @@ def run_impl(c):
             return {"ok": {"core": tgen.obs_sparse(np, R.core), "factors": [tgen.obs_matrix(np, f) for f in R.factor_matrices]}}
         if c.op == "reshape_sp_rt":
             S = _mk_sp(ttb, np, a)
+            pre = {}
+            _pre_sp(ttb, np, a, S, pre)
+            if pre.get("skip"):
+                return pre
             keep, q = _rs_order(len(a["shape"]), a["old"])
             R = S.reshape(tuple(a["new"]), np.array(a["old"], dtype=int))
             R2 = R.reshape(tuple(a["shape"][k] for k in a["old"]), np.arange(len(keep), len(keep) + len(a["new"]), dtype=int))
             inv = [q.index(k) for k in range(len(q))]          # argsort(keep ++ old), by plain search
-            return {"ok": tgen.obs_sparse(np, R2.permute(np.array(inv, dtype=int)))}
+            return dict(pre, ok=tgen.obs_sparse(np, R2.permute(np.array(inv, dtype=int))))
         if c.op == "reshape_agree":
             keep, q = _rs_order(len(a["shape"]), a["old"])
             out = {}
@@ -879,6 +980,8 @@ def _chain_check(a, o):
 def coq_check(c, o):
     a = c.args
     exc = "exc" in o
+    if o.get("skip"):
+        return None
     if o.get("input_changed"):
         return "false"
     if c.op == "chain":
@@ -896,7 +999,7 @@ def coq_check(c, o):
         obs = "None" if exc else f"(Some {tgen.gdense(o['ok']['shape'], o['ok']['data'])})"
         return f"od_ok (reshape_d 0%Z {T} {gnlist(a['new'])}) {obs}"
     if c.op in ("permute_sp", "reshape_sp"):
-        S = tgen.gsparse(a["shape"], *_eff_sparse(a))
+        S = tgen.gsparse(a["shape"], *_eff_sparse(a, o))
         if not exc:
             ob = o["ok"]
             if not tgen.all_int(ob["vals"]) or ob["nnz"] != len(ob["subs"]):
@@ -906,9 +1009,12 @@ def coq_check(c, o):
             obs = "None"
         if c.op == "permute_sp":
             return f"os_ok (permute_sp {S} {gnlist(a['p'])}) {obs}"
+        # hand model and the transliteration over the GENERATED tt_sub2ind / tt_ind2sub (Model/C07Gen.v) against pyttb
+        oldm = a["old"] if a["old"] is not None else list(range(len(a["shape"])))
+        gen = f"os_ok (res_opt (reshape_sp_gen {S} {gnlist(a['new'])} {gnlist(oldm)})) {obs}"
         if a["old"] is None:
-            return f"os_ok (reshape_sp_all {S} {gnlist(a['new'])}) {obs}"
-        return f"os_ok (reshape_sp {S} {gnlist(a['new'])} {gnlist(a['old'])}) {obs}"
+            return f"andb (os_ok (reshape_sp_all {S} {gnlist(a['new'])}) {obs}) ({gen})"
+        return f"andb (os_ok (reshape_sp {S} {gnlist(a['new'])} {gnlist(a['old'])}) {obs}) ({gen})"
     if c.op == "permute_k":
         Kin = o.get("pre", a["K"])
         if not _k_int(Kin):
@@ -943,7 +1049,7 @@ def coq_check(c, o):
         O = f"(mkST {tgen.gsparse(oc['shape'], oc['subs'], oc['vals'])} {_gmat_list(ob['factors'])})"
         return f"ost_ok (permute_st {G} {gnlist(a['p'])}) (Some {O})"
     if c.op == "reshape_sp_rt":
-        S = tgen.gsparse(a["shape"], a["subs"], a["vals"])
+        S = tgen.gsparse(a["shape"], *_eff_sparse(a, o))
         if exc:
             return "false"            # generated requests are admissible: the round trip must not raise
         ob = o["ok"]
@@ -992,7 +1098,7 @@ def coq_check(c, o):
             return "false"
         return f"sqd_ok (squeeze_d 0%Z {T}) (SqT {tgen.gdense(o['ok']['shape'], o['ok']['data'])})"
     if c.op == "squeeze_sp":
-        S = tgen.gsparse(a["shape"], *_eff_sparse(a))
+        S = tgen.gsparse(a["shape"], *_eff_sparse(a, o))
         if exc:
             return "false"
         if "scalar" in o:
@@ -1034,8 +1140,8 @@ def _sp_dict(ob, zeros_ok=False):
     return d
 
 
-def _din(a):
-    subs, vals = _eff_sparse(a)
+def _din(a, o=None):
+    subs, vals = _eff_sparse(a, o)
     return {tuple(s): v for s, v in zip(subs, vals)}
 
 
@@ -1237,7 +1343,7 @@ def oracle(c, o):
             return None
         if c.op == "permute_sp":
             d = _sp_dict(ob, zeros_ok)
-            din = _din(a)
+            din = _din(a, o)
             if d is None or ob["shape"] != nshape or ob["nnz"] != len(din):
                 return "result ill-formed / wrong shape / wrong nnz"
             for i in tgen.all_subs(nshape):
@@ -1290,7 +1396,7 @@ def oracle(c, o):
         ob = o["ok"]
         nshape = [shp[k] for k in keep] + a["new"]
         d = _sp_dict(ob, zeros_ok)
-        din = _din(a)
+        din = _din(a, o)
         if d is None or ob["shape"] != nshape or ob["nnz"] != len(din):
             return "result ill-formed / wrong shape / wrong nnz"
         want = {}
@@ -1302,7 +1408,7 @@ def oracle(c, o):
         if "exc" in o:
             return f"round trip of an admissible subset reshape raised: {o['exc']} {o.get('msg')}"
         d = _sp_dict(o["ok"], zeros_ok)
-        din = _din(a)
+        din = _din(a, o)
         if d is None or o["ok"]["shape"] != shp or d != din:
             return "reshape ; reshape back ; restore mode order did not return the original tensor"
         return None
@@ -1354,7 +1460,7 @@ def oracle(c, o):
             if "ok" not in o or o["ok"]["shape"] != nshape or o["ok"]["data"] != a["data"]:
                 return "squeezed tensor differs"
             return None
-        din = _din(a)
+        din = _din(a, o)
         if not keepi:
             want = din.get(tuple([0] * N), 0)
             return None if o.get("scalar") == want else "scalar result differs from the single entry"
